@@ -5,6 +5,7 @@ import StorageModel.C05.Spec
 import StorageModel.C05.SelfW
 import StorageModel.C05.Schema
 import StorageModel.C05.SchemaSpec
+import StorageModel.C05.KeySize
 /- model driver for C05: `run spec` reads case lines on stdin and prints one output line per case
    (spec = false: the engine model's output; spec = true: the spec's verdict).
    Case and output formats: see /verif/harness/c05.go. -/
@@ -335,6 +336,13 @@ def candidates (txs : List (List (GOp Key))) (pool : List Key) (f : Side) : List
     | .create x id _ _ => if x.side = f then some id else none
     | _ => none)
 
+/-- bbolt's `MaxKeySize` is 32768 and a link key is the type byte plus the id -/
+def bigKey (k : Key) : Bool := decide (k.length ≥ 32768)
+
+def showKErr : KErr → String
+  | .base e => showErr e
+  | .tooLarge => "!toolarge"
+
 /-- evaluation plumbing only: the model's state holds its slots as a FUNCTION, so every operation
     wraps the previous one in a closure and a lookup would re-run the slot's whole history; this
     evaluates every declared slot once and stores the values (extensionally the same state) -/
@@ -372,10 +380,10 @@ def runTxModel (sc : Schema) (g : GSt Key) (ops : List (GOp Key)) (cands : List 
     match ops with
     | [] => (cur, acc.reverse, "")
     | op :: rest =>
-      let o := gstep sc cur op
+      let o := gstepK sc bigKey cur op
       let st := strictSlots sc o.st
       match o.err with
-      | some e => (g, ((showRet o.ret ++ showErr e) :: acc).reverse, vw (strictEntsM cands st))
+      | some e => (g, ((showRet o.ret ++ showKErr e) :: acc).reverse, vw (strictEntsM cands st))
       | none => go st rest (showRet o.ret :: acc)
   let r := go g ops []
   let fin : GSt Key := strictEntsM cands r.1
@@ -387,7 +395,7 @@ def runTxSpec (sc : Schema) (g : GSSt Key) (ops : List (GOp Key)) (cands : List 
     match ops with
     | [] => (cur, acc.reverse, "")
     | op :: rest =>
-      match gsstep sc cur op with
+      match gsstepK sc bigKey cur op with
       | none => (g, ("!" :: acc).reverse, "*")
       | some (g', ret) => go (strictSpec sc g') rest (showRet ret :: acc)
   let r := go g ops []
